@@ -9,10 +9,13 @@
    delivered everything.  [stuckb cfg s] = not all done and no thread id can make progress: this is
    the predicate the check uses to certify that a run that did not exit is a deadlock.
 
-   Hypotheses ("Live"): the repairs of P11 and P12 are in (switches), the repair of P13 is in OR no
-   command writes more than a pipe buffer to stderr, no step thread can die (popen succeeds, the
-   thorough comparison does not fail: open finding P14b; the superficial one is covered by the
-   repair of P14), process_pool_size > 0, pipe capacity > 0. *)
+   Section C11 (the repaired tree): the repairs of P11, P12, P14 and P14b are in (switches), the repair
+   of P13 is in OR no command writes more than a pipe buffer to stderr, process_pool_size > 0, pipe
+   capacity > 0, and -- environment -- popen of every step command succeeds ([all_can_start]: the
+   commands are run through `sh -c`).  No exclusion of comparison errors: a dependency that cannot be
+   compared, superficially (P14) or thoroughly (P14b), breaks the step.
+   Section C11_any_switch: the same theorems for ANY setting of fixed_P14 / fixed_P14b, outside the
+   boolean class Known_thread_error (the statement that applies to a tree without the P14b repair). *)
 From Coq Require Import List Bool NArith Lia.
 From XV Require Import Base.Amap Gen.StepMachine Sched.Model Sched.Proofs Sched.Live.
 Import ListNotations.
@@ -24,12 +27,15 @@ Hypothesis pool_shared : fix_shared_pool cfg = true.
 Hypothesis pool_atomic : fix_atomic_acquire cfg = true.
 Hypothesis p12_repaired : fixed_P12 cfg = true.
 Hypothesis p13_repaired_or_small_stderr : fixed_P13 cfg = true \/ Known_big_stderr cfg = false.
-Hypothesis no_thread_error : Known_thread_error cfg = false.
+Hypothesis p14_repaired : fixed_P14 cfg = true.
+Hypothesis p14b_repaired : fixed_P14b cfg = true.
+Hypothesis commands_can_start : all_can_start cfg = true.
 Hypothesis pool_positive : 0 < c_pool cfg.
 Hypothesis cap_positive : 0 < c_cap cfg.
 
 Let live : Live cfg :=
-  Build_Live cfg pool_shared pool_atomic p12_repaired p13_repaired_or_small_stderr no_thread_error pool_positive cap_positive.
+  live_fixed cfg pool_shared pool_atomic p12_repaired p13_repaired_or_small_stderr p14_repaired p14b_repaired
+             commands_can_start pool_positive cap_positive.
 
 (* 1. (core) no deadlock: in every reachable state of every schedule in which some step has no
       verdict yet, some thread can make progress *)
@@ -44,9 +50,7 @@ Proof. exact (not_stuck_lemma cfg sch s live). Qed.
       state messages, remaining work of the commands); a polling turn leaves the state unchanged *)
 Theorem progress_decreases sch s x s' :
   run cfg sch = Accepted s -> step_ex cfg s x = Some (s', true) -> measure cfg s' < measure cfg s.
-Proof.
-  intros Hrun. exact (progress_decreases_lemma cfg s x s' live (Inv_run cfg sch s Hrun) (LInv_run cfg sch s live Hrun)).
-Qed.
+Proof. exact (progress_decreases_run cfg sch s x s' live). Qed.
 
 Theorem stutter_keeps_state s x s' : step_ex cfg s x = Some (s', false) -> s' = s.
 Proof. exact (stutter_keeps_state_lemma cfg s x s' pool_atomic). Qed.
@@ -57,27 +61,64 @@ Theorem fair_termination s0 K n sch :
   init cfg = Accepted s0 -> measure cfg s0 <= N.of_nat n ->
   fair K (all_tids cfg) sch -> (K * (n + 1) <= length sch)%nat ->
   all_doneb (run_sched cfg s0 sch) = true.
-Proof.
-  intros Hinit. exact (fair_termination_lemma cfg s0 K live Hinit n s0 sch (Inv_init cfg s0 Hinit) (LInv_init cfg s0 live Hinit)).
-Qed.
+Proof. exact (fair_termination_init cfg s0 K n sch live). Qed.
 
 (* ... no step thread ever ends without a verdict on the way ... *)
 Theorem threads_end_only_with_verdict sch s i sc t :
   run cfg sch = Accepted s -> find_step (c_steps cfg) i = Some sc -> tget (thr s) i = Some t ->
   status t = TRun \/ (status t = TFin /\ is_terminal (loc t) = true).
-Proof.
-  intros Hrun Hf Ht. destruct (li_status (l_thr (LInv_run cfg sch s live Hrun) i sc t Hf Ht)) as [E|E]; [left; exact E|right].
-  split; [exact E|]. exact (ti_fin (inv_thr (Inv_run cfg sch s Hrun) i t Ht) E).
-Qed.
+Proof. exact (threads_end_only_with_verdict_lemma cfg sch s i sc t live). Qed.
 End C11.
 
 (* ... and when it is over every step is DoneByRunning, DoneWithoutRunning or Broken (any switches) *)
 Theorem verdict_for_every_step cfg sch s i t :
   run cfg sch = Accepted s -> all_doneb s = true -> tget (thr s) i = Some t ->
   is_terminal (loc t) = true /\ chan t = [].
-Proof. intros Hrun. exact (all_done_verdicts_lemma cfg s i t (Inv_run cfg sch s Hrun)). Qed.
+Proof. exact (all_done_verdicts_run cfg sch s i t). Qed.
 
+(* the same for any setting of the P14 / P14b switches, outside the class Known_thread_error *)
+Section C11_any_switch.
+Variable cfg : config.
+Hypothesis pool_shared : fix_shared_pool cfg = true.
+Hypothesis pool_atomic : fix_atomic_acquire cfg = true.
+Hypothesis p12_repaired : fixed_P12 cfg = true.
+Hypothesis p13_repaired_or_small_stderr : fixed_P13 cfg = true \/ Known_big_stderr cfg = false.
+Hypothesis no_thread_error : Known_thread_error cfg = false.
+Hypothesis pool_positive : 0 < c_pool cfg.
+Hypothesis cap_positive : 0 < c_cap cfg.
+
+Let live : Live cfg :=
+  Build_Live cfg pool_shared pool_atomic p12_repaired p13_repaired_or_small_stderr no_thread_error pool_positive cap_positive.
+
+Theorem no_deadlock_outside_known_class sch s :
+  run cfg sch = Accepted s -> all_doneb s = false -> exists x, progressb cfg s x = true.
+Proof. exact (no_deadlock_lemma cfg sch s live). Qed.
+
+Theorem never_stuck_outside_known_class sch s : run cfg sch = Accepted s -> stuckb cfg s = false.
+Proof. exact (not_stuck_lemma cfg sch s live). Qed.
+
+Theorem fair_termination_outside_known_class s0 K n sch :
+  init cfg = Accepted s0 -> measure cfg s0 <= N.of_nat n ->
+  fair K (all_tids cfg) sch -> (K * (n + 1) <= length sch)%nat ->
+  all_doneb (run_sched cfg s0 sch) = true.
+Proof. exact (fair_termination_init cfg s0 K n sch live). Qed.
+
+Theorem threads_end_only_with_verdict_outside_known_class sch s i sc t :
+  run cfg sch = Accepted s -> find_step (c_steps cfg) i = Some sc -> tget (thr s) i = Some t ->
+  status t = TRun \/ (status t = TFin /\ is_terminal (loc t) = true).
+Proof. exact (threads_end_only_with_verdict_lemma cfg sch s i sc t live). Qed.
+End C11_any_switch.
+
+(* the class is empty in the repaired tree (up to popen) *)
+Theorem thread_error_class_empty_when_fixed cfg :
+  fixed_P14 cfg = true -> fixed_P14b cfg = true -> all_can_start cfg = true -> Known_thread_error cfg = false.
+Proof. exact (thread_error_fixed cfg). Qed.
+
+(* the regenerated table (premise: the transition of the repair of P14b, CheckingThoroughDiffs
+   -HasMissingDependencies-> Broken, is in the table of the tree that has the repair; the check passes
+   fixed_P14b = table_P14b to the model on every run and compares both with the binary's behaviour) *)
 Theorem handler_within_table cfg s sc t :
+  (fixed_P14b cfg = true -> table_P14b = true) ->
   match handler cfg s sc t with
   | HNext l _ _ => exists e, snd l = Some e /\ allowed (fst (loc t)) e = Some (fst l)
   | _ => True
@@ -85,16 +126,23 @@ Theorem handler_within_table cfg s sc t :
 Proof. exact (handler_within_table_lemma cfg s sc t). Qed.
 
 (* ---- the full statement, and what each repair fixed ------------------------------------------ *)
-Definition C11_full : Prop :=
-  forall cfg sch s, 0 < c_pool cfg -> 0 < c_cap cfg -> run cfg sch = Accepted s -> stuckb cfg s = false.
+(* [repaired]: are all repairs of the scheduler in (P11 both halves, P12, P13, P14, P14b).  Environment:
+   popen succeeds, pool and pipe capacity positive.  No class is excluded. *)
+Definition C11_full (repaired : bool) : Prop :=
+  forall cfg sch s, all_repaired cfg = repaired -> all_can_start cfg = true -> 0 < c_pool cfg -> 0 < c_cap cfg ->
+  run cfg sch = Accepted s -> stuckb cfg s = false.
+
+Theorem C11_full_fixed : C11_full true.
+Proof. exact C11_full_fixed_lemma. Qed.
 
 Definition mkstep i w deps outs pr :=
   {| s_id := i; s_when := w; s_deps := deps; s_outs := outs; s_proc := pr; s_sup := VChanged; s_thor := VChanged |}.
 Definition mkstepv i w deps outs pr sup thor :=
   {| s_id := i; s_when := w; s_deps := deps; s_outs := outs; s_proc := pr; s_sup := sup; s_thor := thor |}.
-Definition mkcfg steps ex pool a b c d e :=
+Definition mkcfg steps ex pool a b c d e f :=
   {| c_steps := steps; c_exists := ex; c_pool := pool; c_cap := 65536;
-     fix_shared_pool := a; fix_atomic_acquire := b; fixed_P12 := c; fixed_P13 := d; fixed_P14 := e |}.
+     fix_shared_pool := a; fix_atomic_acquire := b; fixed_P12 := c; fixed_P13 := d; fixed_P14 := e;
+     fixed_P14b := f; fixed_P16 := true |}.
 Definition round_robin (cfg : config) (n : nat) : list tid := flat_map (fun _ => all_tids cfg) (seq 0 n).
 Definition outcome (cfg : config) (n : nat) :=
   match run cfg (round_robin cfg n) with
@@ -105,90 +153,122 @@ Definition outcome (cfg : config) (n : nat) :=
 (* P12: `both` depends on `ok` (exit 0) and `bad` (exit 1) *)
 Definition mixed := [mkstep 0 ByDeps [] [] (Exits 0 0 0); mkstep 1 ByDeps [] [] (Exits 1 0 0); mkstep 2 ByDeps [DStep 0; DStep 1] [] (Exits 0 0 0)].
 Theorem deadlock_mixed_deps_refuted :
-  outcome (mkcfg mixed [] 2 true true false true true) 60 = Some (false, true, [DoneByRunning; Broken; WaitingDependencySteps]).
+  outcome (mkcfg mixed [] 2 true true false true true true) 60 = Some (false, true, [DoneByRunning; Broken; WaitingDependencySteps]).
 Proof. vm_compute. reflexivity. Qed.
 Example mixed_deps_repaired :
-  outcome (mkcfg mixed [] 2 true true true true true) 60 = Some (true, false, [DoneByRunning; Broken; Broken]).
+  outcome (mkcfg mixed [] 2 true true true true true true) 60 = Some (true, false, [DoneByRunning; Broken; Broken]).
 Proof. vm_compute. reflexivity. Qed.
 
 (* P14: step 0 has a file dependency that cannot be checked, step 1 depends on it *)
 Definition missing := [mkstepv 0 ByDeps [DPath 9] [] (Exits 0 0 0) VError VChanged; mkstep 1 ByDeps [DStep 0] [] (Exits 0 0 0)].
 Theorem deadlock_dead_thread_refuted :
-  outcome (mkcfg missing [] 2 true true true true false) 60 = Some (false, true, [CheckingSuperficialDiffs; WaitingDependencySteps]).
+  outcome (mkcfg missing [] 2 true true true true false true) 60 = Some (false, true, [CheckingSuperficialDiffs; WaitingDependencySteps]).
 Proof. vm_compute. reflexivity. Qed.
 Example missing_dependency_repaired :
-  outcome (mkcfg missing [] 2 true true true true true) 60 = Some (true, false, [Broken; Broken]).
+  outcome (mkcfg missing [] 2 true true true true true true) 60 = Some (true, false, [Broken; Broken]).
 Proof. vm_compute. reflexivity. Qed.
 
 (* P13: 200 kB on stderr *)
 Definition bigerr := [mkstep 0 ByDeps [] [] (Exits 0 0 200000)].
 Theorem deadlock_pipe_refuted :
-  outcome (mkcfg bigerr [] 2 true true true false true) 60 = Some (false, true, [Running]).
+  outcome (mkcfg bigerr [] 2 true true true false true true) 60 = Some (false, true, [Running]).
 Proof. vm_compute. reflexivity. Qed.
-Example big_stderr_in_class : Known_big_stderr (mkcfg bigerr [] 2 true true true false true) = true.
+Example big_stderr_in_class : Known_big_stderr (mkcfg bigerr [] 2 true true true false true true) = true.
 Proof. vm_compute. reflexivity. Qed.
 Example pipe_repaired :
-  outcome (mkcfg bigerr [] 2 true true true true true) 60 = Some (true, false, [DoneByRunning]).
+  outcome (mkcfg bigerr [] 2 true true true true true true) 60 = Some (true, false, [DoneByRunning]).
 Proof. vm_compute. reflexivity. Qed.
 Example big_stdout_is_fine :
-  outcome (mkcfg [mkstep 0 ByDeps [] [] (Exits 0 200000 1000)] [] 2 true true true false true) 60 = Some (true, false, [DoneByRunning]).
+  outcome (mkcfg [mkstep 0 ByDeps [] [] (Exits 0 200000 1000)] [] 2 true true true false true true) 60 = Some (true, false, [DoneByRunning]).
 Proof. vm_compute. reflexivity. Qed.
 
-(* P14b (open): the thorough comparison of step 0 fails *)
+(* P14b: the thorough comparison of step 0 fails (a --lines / --regex dependency on a missing file, a
+   directory given as --file); every other repair is in *)
 Definition thor := [mkstepv 0 ByDeps [DPath 9] [] (Exits 0 0 0) VChanged VError; mkstep 1 ByDeps [DStep 0] [] (Exits 0 0 0)].
 Theorem deadlock_thorough_error_refuted :
-  outcome (mkcfg thor [] 2 true true true true true) 60 = Some (false, true, [CheckingThoroughDiffs; WaitingDependencySteps]).
+  outcome (mkcfg thor [] 2 true true true true true false) 60 = Some (false, true, [CheckingThoroughDiffs; WaitingDependencySteps]).
 Proof. vm_compute. reflexivity. Qed.
-Example thorough_error_in_class : Known_thread_error (mkcfg thor [] 2 true true true true true) = true.
+Example thorough_error_in_class :
+  (Known_thread_error (mkcfg thor [] 2 true true true true true false), Known_thread_error (mkcfg thor [] 2 true true true true true true)) = (true, false).
+Proof. vm_compute. reflexivity. Qed.
+Example thorough_error_repaired :
+  outcome (mkcfg thor [] 2 true true true true true true) 60 = Some (true, false, [Broken; Broken]).
+Proof. vm_compute. reflexivity. Qed.
+(* an `always` step downstream of the broken step still runs *)
+Example thorough_error_repaired_always :
+  outcome (mkcfg [mkstepv 0 ByDeps [DPath 9] [] (Exits 0 0 0) VChanged VError; mkstep 1 Always [DStep 0] [] (Exits 0 0 0)] [] 2 true true true true true true) 60
+  = Some (true, false, [Broken; DoneByRunning]).
 Proof. vm_compute. reflexivity. Qed.
 
-Theorem C11_full_refuted : ~ C11_full.
+(* without one of the repairs the full statement fails (witness: P14b off) *)
+Theorem C11_full_refuted : ~ C11_full false.
 Proof.
   intros H.
-  pose (cfg := mkcfg thor [] 2 true true true true true).
+  pose (cfg := mkcfg thor [] 2 true true true true true false).
   assert (E : exists s, run cfg (round_robin cfg 60) = Accepted s /\ stuckb cfg s = true).
   { eexists. split; vm_compute; reflexivity. }
   destruct E as [s [Hr Hs]].
   assert (Hf : stuckb cfg s = false).
-  { apply (H cfg (round_robin cfg 60) s); [vm_compute; reflexivity|vm_compute; reflexivity|exact Hr]. }
+  { apply (H cfg (round_robin cfg 60) s); [vm_compute; reflexivity|vm_compute; reflexivity|vm_compute; reflexivity|vm_compute; reflexivity|exact Hr]. }
   rewrite Hf in Hs. discriminate.
 Qed.
 
+(* the environment assumption is needed: a command that cannot be started ends its thread without a verdict *)
+Example popen_failure_no_verdict :
+  outcome (mkcfg [mkstep 0 ByDeps [] [] CannotStart; mkstep 1 ByDeps [DStep 0] [] (Exits 0 0 0)] [] 2 true true true true true true) 60
+  = Some (false, true, [Running; WaitingDependencySteps]).
+Proof. vm_compute. reflexivity. Qed.
+
 (* the assumption process_pool_size > 0 is needed: with a pool of 0 every command waits for ever *)
 Example pool_zero_waits_for_ever :
-  outcome (mkcfg mixed [] 0 true true true true true) 60 = Some (false, true, [WaitingToRun; WaitingToRun; WaitingDependencySteps]).
+  outcome (mkcfg mixed [] 0 true true true true true true) 60 = Some (false, true, [WaitingToRun; WaitingToRun; WaitingDependencySteps]).
 Proof. vm_compute. reflexivity. Qed.
 
 (* non-vacuity of the hypotheses: a configuration that satisfies all of them and has all the
    features (failing step, mixed dependencies, always, pool smaller than the number of steps,
-   more than a pipe buffer on stdout) *)
+   more than a pipe buffer on stdout, a superficial and a thorough comparison error) *)
 Definition cfg_live : config :=
   mkcfg [mkstep 0 ByDeps [] [5] (Exits 0 70000 100); mkstep 1 ByDeps [] [] (Exits 1 0 0);
          mkstep 2 ByDeps [DStep 1; DPath 5] [] (Exits 0 0 0); mkstep 3 Always [DStep 2; DStep 0] [] (Exits 0 10 10);
-         mkstepv 4 ByDeps [DPath 8] [] (Exits 0 0 0) VError VChanged]
-        [] 1 true true true false true.
+         mkstepv 4 ByDeps [DPath 8] [] (Exits 0 0 0) VError VChanged;
+         mkstepv 5 ByDeps [DPath 9] [] (Exits 0 0 0) VChanged VError; mkstep 6 Always [DStep 5] [] (Exits 0 0 0)]
+        [] 1 true true true false true true.
 Example cfg_live_meets_hypotheses :
-  (fix_shared_pool cfg_live, fix_atomic_acquire cfg_live, fixed_P12 cfg_live, Known_big_stderr cfg_live, Known_thread_error cfg_live,
-   N.ltb 0 (c_pool cfg_live), N.ltb 0 (c_cap cfg_live)) = (true, true, true, false, false, true, true).
+  (fix_shared_pool cfg_live, fix_atomic_acquire cfg_live, fixed_P12 cfg_live, Known_big_stderr cfg_live, fixed_P14 cfg_live, fixed_P14b cfg_live,
+   all_can_start cfg_live, Known_thread_error cfg_live, N.ltb 0 (c_pool cfg_live), N.ltb 0 (c_cap cfg_live))
+  = (true, true, true, false, true, true, true, false, true, true).
 Proof. vm_compute. reflexivity. Qed.
 Example cfg_live_outcome :
-  outcome cfg_live 200 = Some (true, false, [DoneByRunning; Broken; Broken; DoneByRunning; Broken]).
+  outcome cfg_live 200 = Some (true, false, [DoneByRunning; Broken; Broken; DoneByRunning; Broken; Broken; DoneByRunning]).
 Proof. vm_compute. reflexivity. Qed.
 Example cfg_live_measure : match init cfg_live with Accepted s0 => N.leb (measure cfg_live s0) 141000 | _ => false end = true.
 Proof. vm_compute. reflexivity. Qed.
 
 Check no_deadlock :
   forall cfg, fix_shared_pool cfg = true -> fix_atomic_acquire cfg = true -> fixed_P12 cfg = true ->
-  fixed_P13 cfg = true \/ Known_big_stderr cfg = false -> Known_thread_error cfg = false ->
+  fixed_P13 cfg = true \/ Known_big_stderr cfg = false ->
+  fixed_P14 cfg = true -> fixed_P14b cfg = true -> all_can_start cfg = true ->
   0 < c_pool cfg -> 0 < c_cap cfg ->
   forall sch s, run cfg sch = Accepted s -> all_doneb s = false -> exists x, progressb cfg s x = true.
 Check fair_termination :
   forall cfg, fix_shared_pool cfg = true -> fix_atomic_acquire cfg = true -> fixed_P12 cfg = true ->
-  fixed_P13 cfg = true \/ Known_big_stderr cfg = false -> Known_thread_error cfg = false ->
+  fixed_P13 cfg = true \/ Known_big_stderr cfg = false ->
+  fixed_P14 cfg = true -> fixed_P14b cfg = true -> all_can_start cfg = true ->
   0 < c_pool cfg -> 0 < c_cap cfg ->
   forall s0 K n sch, init cfg = Accepted s0 -> measure cfg s0 <= N.of_nat n ->
   fair K (all_tids cfg) sch -> (K * (n + 1) <= length sch)%nat -> all_doneb (run_sched cfg s0 sch) = true.
-Check C11_full_refuted : ~ C11_full.
+Check verdict_for_every_step :
+  forall cfg sch s i t, run cfg sch = Accepted s -> all_doneb s = true -> tget (thr s) i = Some t ->
+  is_terminal (loc t) = true /\ chan t = [].
+Check no_deadlock_outside_known_class :
+  forall cfg, fix_shared_pool cfg = true -> fix_atomic_acquire cfg = true -> fixed_P12 cfg = true ->
+  fixed_P13 cfg = true \/ Known_big_stderr cfg = false -> Known_thread_error cfg = false ->
+  0 < c_pool cfg -> 0 < c_cap cfg ->
+  forall sch s, run cfg sch = Accepted s -> all_doneb s = false -> exists x, progressb cfg s x = true.
+Check C11_full_fixed :
+  forall cfg sch s, all_repaired cfg = true -> all_can_start cfg = true -> 0 < c_pool cfg -> 0 < c_cap cfg ->
+  run cfg sch = Accepted s -> stuckb cfg s = false.
+Check C11_full_refuted : ~ C11_full false.
 
 Print Assumptions no_deadlock.
 Print Assumptions never_stuck.
@@ -197,6 +277,12 @@ Print Assumptions stutter_keeps_state.
 Print Assumptions fair_termination.
 Print Assumptions threads_end_only_with_verdict.
 Print Assumptions verdict_for_every_step.
+Print Assumptions no_deadlock_outside_known_class.
+Print Assumptions never_stuck_outside_known_class.
+Print Assumptions fair_termination_outside_known_class.
+Print Assumptions threads_end_only_with_verdict_outside_known_class.
+Print Assumptions thread_error_class_empty_when_fixed.
+Print Assumptions C11_full_fixed.
 Print Assumptions handler_within_table.
 Print Assumptions deadlock_mixed_deps_refuted.
 Print Assumptions deadlock_dead_thread_refuted.
